@@ -602,8 +602,14 @@ pub fn apply_real<'a>(
             }
             Returned::None
         }
-        Op::SetFnName { id, name } => {
-            module.set_fn_name(FunctionID(*id), name.clone());
+        Op::SetFnName { id, name, via } => {
+            match via {
+                0 => module.set_fn_name(FunctionID(*id), name.clone()),
+                1 => {
+                    module.functions.set_local_fn_name(FunctionID(*id), name.clone());
+                }
+                _ => module.imports.set_fn_name(name.clone(), FunctionID(*id)),
+            }
             Returned::None
         }
         Op::ImportsSetName { imp, name } => {
